@@ -44,7 +44,7 @@ class Symbol(DimensionSymbol, SymSymbol):  # type: ignore[misc]  # pylint: disab
 
     def __new__(cls,
         display_symbol: Optional[str] = None,
-        _dimension: Dimension = Dimension(S.One),
+        dimension: Dimension = Dimension(S.One),  # pylint: disable=unused-argument
         *,
         display_latex: Optional[str] = None,
         **assumptions: Any) -> Symbol:
@@ -71,7 +71,7 @@ class IndexedSymbol(DimensionSymbol, IndexedBase):  # type: ignore[misc]  # pyli
     def __new__(cls,
         name_or_symbol: Optional[str | SymSymbol] = None,
         index: Optional[Idx] = None,
-        _dimension: Dimension = Dimension(S.One),
+        dimension: Dimension = Dimension(S.One),  # pylint: disable=unused-argument
         *,
         display_latex: Optional[str] = None,
         **assumptions: Any) -> IndexedSymbol:
@@ -112,7 +112,7 @@ class Function(DimensionSymbol, UndefinedFunction):  # type: ignore[misc]
     def __new__(mcs,
         display_symbol: Optional[str] = None,
         arguments: Optional[Sequence[Expr]] = None,
-        _dimension: Dimension = Dimension(S.One),
+        dimension: Dimension = Dimension(S.One),  # pylint: disable=unused-argument
         *,
         display_latex: Optional[str] = None,
         **options: Any) -> Function:
